@@ -11,6 +11,7 @@ def assocs_of(tr):
     return TRAITS.get(tr) or TRAITS[tr.split('<')[0]]
 
 PRELUDE = '''#![allow(dead_code, unused)]
+extern crate self as me;
 use disjoint_impls::disjoint_impls;
 pub trait D { type G: ?Sized; }
 pub trait D2 { type G: ?Sized; type H: ?Sized; }
